@@ -908,16 +908,17 @@ Section Inv.
         apply (Inv_fail_shutdown _ _ _ PNew); try assumption; try discriminate; [lia|].
         intros j Hn Hj. rewrite <- Id1. apply F1; assumption.
       + destruct (permits s1) as [|pm] eqn:Epm.
-        * injection H as _ <-. apply Inv_acquire_state; assumption.
-        * unfold enqueue in H. cbn [permits queue waiters rx_closed upd_q] in H.
+        * injection H as _ <-. pose proof (Inv_acquire_state s1 i P1 Erx F1 I1) as K.
+          rewrite Erx in K. exact K.
+        * unfold enqueue in H.
           match type of H with poll_slot ?st _ _ = _ =>
             replace s' with (snd (poll_slot st i (next_id s))) by (rewrite H; reflexivity);
             assert (I2 : Inv st) end.
-          { set (q := {| q_id := next_id s |}).
-            assert (I1' : Inv (upd_q s1 pm (queue s1) (waiters s1) (rx_closed s1))).
-            { eapply InvX_vframe; [|exact I1]. constructor; reflexivity. }
-            apply (Inv_enqueue_state (upd_q s1 pm (queue s1) (waiters s1) (rx_closed s1)) i PNew q pm);
-              try assumption; try discriminate. cbn [q_id q]. symmetry; exact Id1. }
+          { assert (I1' : Inv (upd_q s1 pm (queue s1) (waiters s1) false)).
+            { eapply InvX_vframe; [|exact I1]. constructor; try reflexivity. symmetry; exact Erx. }
+            refine (Inv_enqueue_state (upd_q s1 pm (queue s1) (waiters s1) false) i PNew _ pm
+                      P1 _ eq_refl F1 _ I1'); [discriminate|].
+            cbn [q_id]. symmetry; exact Id1. }
           apply (Inv_poll_slot _ _ _ PAwaiting); [|discriminate|exact I2].
           rewrite set_phase_alt. cbn [calls upd_calls upd_q]. rewrite phl_phase_calls, Nat.eqb_refl.
           rewrite P1. reflexivity.
@@ -935,7 +936,12 @@ Section Inv.
         match type of H with poll_slot ?st _ _ = _ =>
           replace s' with (snd (poll_slot st i (c_id c))) by (rewrite H; reflexivity);
           assert (I2 : Inv st) end.
-        { apply (Inv_enqueue_state s i PAssigned _ (permits s)); try assumption; try discriminate.
+        { pose proof (Inv_enqueue_state s i PAssigned
+                        {| q_id := c_id c; q_deadline := c_deadline c;
+                           q_tc := {| tc_tid := tc_tid (c_tc c); tc_sid := c_id c;
+                                      tc_sampled := tc_sampled (c_tc c) |};
+                           q_body := c_body c |} (permits s) Hph) as K.
+          apply K; try assumption; try discriminate; try reflexivity.
           cbn [q_id]. symmetry; exact Hid. }
         apply (Inv_poll_slot _ _ _ PAwaiting); [|discriminate|exact I2].
         rewrite set_phase_alt. cbn [calls upd_calls upd_q]. rewrite phl_phase_calls, Nat.eqb_refl.
@@ -988,7 +994,6 @@ Section Inv.
     - cbn [rx_closed set_slot upd_slots with_id upd_calls upd_misc]. rewrite Rx. discriminate.
     - intros _. apply (i_wa _ W) in Hph. rewrite (i_wd _ W Rx) in Hph. exact Hph.
     - rewrite Rx. discriminate.
-    - discriminate.
     - unfold poll_slot. specialize (AW i Hph). unfold cov in AW. rewrite Q, F, Hid in AW.
       destruct AW as [[]|[[]|[[]|AW]]]. rewrite get_slot_slotv.
       destruct (sl_val (slotv (slots s) (c_id c))) eqn:Ev; [discriminate|].
